@@ -190,7 +190,8 @@ def decode_performance(
 
     if return_alignment:
         alignment = []
-        for snote, pnote in zip(snote_info, ppart.notes):
+        # the decoded notes are in (onset, pitch) order: pair them with the score notes in that order
+        for snote, pnote in zip(snote_info[sort_idx], ppart.notes):
             alignment.append(
                 dict(label="match", score_id=snote["id"], performance_id=pnote["id"])
             )
